@@ -226,6 +226,13 @@ where
         self.τ *= invscale;
         self.κ *= invscale;
     }
+
+    #[cfg(clarabel_verif)]
+    fn verif_record(&self, iter: u32, α: T, σ: T, μ: T, dual_scaling: bool, phase: u8) {
+        crate::verif::trace::record(
+            iter, &self.x, &self.s, &self.z, self.τ, self.κ, α, σ, μ, dual_scaling, phase,
+        );
+    }
 }
 
 fn _shift_to_cone_interior<T>(z: &mut [T], cones: &mut CompositeCone<T>, pd: PrimalOrDualCone)
